@@ -941,6 +941,11 @@ class GeneralSFTPFile(PrefixingLogMixin):
             def _bad(): raise createSFTPError(FX_BAD_MESSAGE, "new size is not a valid nonnegative integer")
             return defer.execute(_bad)
 
+        if size is not None:
+            # A size change alters the contents just as a write does; like writeChunk, record
+            # that at the time of the request, so that close() commits the file.
+            self.has_changed = True
+
         d = defer.Deferred()
         def _set(ign):
             if noisy: self.log("_set(%r) in %r" % (ign, request), level=NOISY)
